@@ -488,6 +488,14 @@ class PeerConnection:
     def write_buffer(self) -> bytes:
         return self._write_buffer
 
+    @property
+    def has_pending_output(self) -> bool:
+        """Output that has not been handed to the socket yet: bytes in the
+        write buffer, or queued messages that the write thread has not
+        encoded into it so far."""
+        return (len(self._write_buffer) > 0 or
+                self._write_msg_queue.unfinished_tasks > 0)
+
     def add_in_bytes(self, read_bytes: bytes):
         """Add network-received bytes to parse and handle.
 
@@ -649,7 +657,12 @@ class PeerConnection:
 
             try:
                 with self.write_lock:
-                    self._write_buffer += new_msg.as_bytes()
+                    try:
+                        self._write_buffer += new_msg.as_bytes()
+                    finally:
+                        # no longer pending in the queue; see
+                        # `has_pending_output`
+                        self._write_msg_queue.task_done()
                 self.demand_attention()
 
                 self.msg_dump.sent(new_msg)
@@ -658,3 +671,5 @@ class PeerConnection:
                 self.logger.warning(
                     f"failed to encode a queued diameter message as bytes: "
                     f"{e}; message discarded")
+                # a closing connection may have been waiting for this message
+                self.demand_attention()
